@@ -154,6 +154,37 @@ for _pid, _old, _new in (
     assert _old in CLAIMS[_pid]["text"], (_pid, _old)
     CLAIMS[_pid]["text"] = CLAIMS[_pid]["text"].replace(_old, _new)
 
+# third layer: complete small domains, stand-in compositions, more C tables
+TOY = "interpretation over complete toy instances of the algebraic structure (a real curve over F_17, a subgroup of (Z/23)*, RSA moduli 11*23) and over stand-in primitives (fixed hash/MGF functions, a Feistel bijection) with byte-exact comparison against the standard"
+EXTRA2 = {
+ "C01": ("; raw_ocb.c over a concrete bijection and both GHASH implementations on a basis per hash key (C evaluator, CLMUL/SSE intrinsics modelled)",
+         " Also decided on tables: the native OCB tag and plaintext (RFC 7253, all length classes, block counters up to 2^63) and GHASH in ghash_portable.c / ghash_clmul.c (zero block and all 128 one-bit blocks per key, chained messages, the 4-block path)."),
+ "C02": ("; " + TOY + " for KW/KWP; raw_ocb.c, GHASH, Salsa20 and AES.c vs AESNI.c (AES-NI instructions modelled) on the C evaluator",
+         " Also decided: AES key wrap and KWP byte for byte (RFC 3394 / 5649) for every length class with every unwrap check violated alone; Salsa20 key stream incl. counter carry; OCB and GHASH natively; AES.c and AESNI.c agree on every code path for all key sizes (table)."),
+ "C03": ("; fresh-instance rule (h.new() builds the algorithm variant of h, compared through native construction calls); digest values of every native hash on the C evaluator against independent implementations (K-kat)",
+         " Also decided: the object-level new() of 33 hash configurations keeps capacity, rate, prefix, truncation and oid; digest values of MD2/4/5, SHA-1/2, RIPEMD-160, SHA-3/SHAKE/TurboSHAKE/Keccak, BLAKE2b/s (keyed, every digest-size class) on a message table around the padding boundaries equal hashlib / the checker's own MD4 and Keccak-p."),
+ "C04": ("; " + TOY + ": ECDSA/DSA sign and verify for every key, nonce, digest and (r, s) of the toy group, RSA primitives on every residue, RFC 6979 conversions, EMSA-PSS/EMSA-PKCS1-v1_5 byte for byte",
+         " Also decided: EccKey/DsaKey _sign and _verify equal FIPS 186-4 on complete toy groups (including x(kG) >= n), every produced signature verifies, RsaKey._decrypt_to_bytes (CRT, blinding) equals c^d mod n on every residue; RFC 6979 bits2int/int2octets/bits2octets; EMSA encodings for every emBits residue with every single-byte modification refused. One recorded finding: sign() does not retry on r = 0 or s = 0."),
+ "C06": ("; neutral-element predicate rows", " Also decided: is_point_at_infinity() is true for the neutral element only (Edwards: (0, 1), not the order-2 point)."),
+ "C07": ("; " + TOY + ": EME-OAEP byte for byte and round trip, RSA primitives on complete toy moduli over the native and custom Integer back-ends",
+         " Also decided: encrypt() hands exactly EM = 00 || maskedSeed || maskedDB of RFC 8017 7.1.1 to the primitive for every modulus size mod 8 and message length, decrypt() inverts it and refuses another label; the blinded CRT decryption equals c^d mod n on every residue of two toy moduli."),
+ "C12": ("; bcrypt radix-64 / assembly / round-trip rows with the core uninterpreted; scryptROMix and Salsa20/8 on the C evaluator against RFC 7914",
+         " Also decided: bcrypt's radix-64 codec on every length, the $2a$ string assembly, key preparation and bcrypt_check round trip; scrypt's (N, r, p) and PBKDF1's count domains refuse non-positive values; the native ROMix for several (r, N), in place and not."),
+ "C13": ("; X6 (non-INTEGER SEQUENCE members used as numbers), calls through function-valued locals, KDF gate rows",
+         " Also decided: no decoder reaches a key-derivation function (whose cost comes from the file) when no passphrase was given; members of a SEQUENCE decoded without only_ints_expected never reach arithmetic."),
+ "C14": ("; primality tables: Miller-Rabin with injected bases, Lucas and the combined test on every candidate of a range and on the pseudoprime families (eagerly interpreted generators), legacy number.isPrime likewise",
+         " Also decided: miller_rabin_test, lucas_test, test_probable_prime, number._rabinMillerTest and number.isPrime equal the checker's FIPS 186-4 C.3.1 / C.3.3 / trial division on every candidate 2..1300 and on Carmichael numbers, strong pseudoprimes and Lucas pseudoprimes."),
+ "C16": ("; AES.c and AESNI.c interpreted side by side on the C evaluator with the AES-NI instructions modelled from the Intel SDM; both GHASH implementations against one reference",
+         " Also decided (tables): AES.c and AESNI.c give the same bytes for all key sizes on every code path and reproduce FIPS 197; ghash_portable.c and ghash_clmul.c both equal SP 800-38D on a basis of blocks per key."),
+ "C17": ("; OCB guard rows", ""),
+ "C09": ("; raw_ocb.c in block-aligned pieces", " Also: the native OCB loop gives the one-shot result for block-aligned pieces."),
+}
+for _pid, (_t, _x) in EXTRA2.items():
+    CLAIMS[_pid]["technique"] += _t
+    CLAIMS[_pid]["text"] += _x
+CLAIMS["C16"]["text"] = CLAIMS["C16"]["text"].replace(" Bit-for-bit equality of the AES round functions / GHASH multipliers and of libgmp's arithmetic is not decided.", " Equality of the AES round functions / GHASH multipliers beyond the tables, and libgmp's arithmetic, are not decided.")
+CLAIMS["C04"]["note"] += " Two recorded findings are in known_findings.json (status known): C04 sign() without retry on a zero component."
+
 NOT_YET = {}
 
 ALL = ["C%02d" % i for i in range(1, 21)]
